@@ -26,6 +26,17 @@ CHECKS["C17"] = dict(
     technique="Lean 4 proof (well-founded recursion, functional induction); pinned-source tie + exhaustive differential correspondence",
     design="5/C17")
 
+CHECKS["C16"] = dict(
+    text="Lean 4: digit_string_exact (every n>=1, every v<10^n: n digit characters whose value is v), places_scale, "
+         "places_half_ulp (half-even rounding within half a unit of the last place, in exact integer arithmetic), places_idempotent, "
+         "places_ok_of_small, conversion_types. Tied to schema_instance.py by pinned sources of the two one-liners, the extracted "
+         "CONVERSION table, and differential execution (exhaustive for n<=4 in three numeric representations).",
+    note="Trusted: Lean kernel; str(int)=Nat.toDigits 10, int() of integral float/Decimal, Decimal(value) exactness and "
+         "Decimal.quantize (half-even, InvalidOperation above 28 digits) are library behaviour modelled by hand and validated by the "
+         "correspondence; finite values only.",
+    technique="Lean 4 proof (core Nat.toDigits lemmas, omega over div/mod) + pinned-source/extracted-table tie + differential correspondence",
+    design="5/C16")
+
 NOT_APPLICABLE = {
 }
 
